@@ -27,6 +27,7 @@ import (
 	govv1 "github.com/cosmos/cosmos-sdk/x/gov/types/v1"
 	stakingtypes "github.com/cosmos/cosmos-sdk/x/staking/types"
 	"github.com/ethereum/go-ethereum/common"
+	"github.com/ethereum/go-ethereum/crypto"
 
 	coinomicstypes "github.com/haqq-network/haqq/x/coinomics/types"
 	erc20types "github.com/haqq-network/haqq/x/erc20/types"
@@ -816,5 +817,24 @@ func AdversarialTemplates() []Template {
 			return cosmosTx(w, 0, govv1.NewMsgVote(w.Addrs[0], id-1, govv1.OptionNoWithVeto, ""))
 		},
 	}}
-	return []Template{fund, veto}
+	// a contract receives coins of a denomination the EVM does not manage and then self-destructs: the
+	// coins may stay, move or vanish, but no module account may end up with coins nobody recorded
+	holder := func(w *world.World) common.Address {
+		acc := w.App.AccountKeeper.GetAccount(w.Ctx(), w.Addrs[5])
+		return crypto.CreateAddress(common.BytesToAddress(w.Addrs[5]), acc.GetSequence()-1)
+	}
+	sd := Template{Name: "selfdestructHoldingForeignCoins", Steps: []func(w *world.World, _ precomp.ABIs) []byte{
+		func(w *world.World, _ precomp.ABIs) []byte {
+			// init code returning the runtime CALLER SELFDESTRUCT
+			return ethTx(w, 5, nil, 9, common.FromHex("6133ff6000526002601ef3"), 200000, 0)
+		},
+		func(w *world.World, _ precomp.ABIs) []byte {
+			return cosmosTx(w, 4, banktypes.NewMsgSend(w.Addrs[4], sdk.AccAddress(holder(w).Bytes()), coins("atest", 3).Add(sdk.NewInt64Coin(world.Denom, 2))))
+		},
+		func(w *world.World, _ precomp.ABIs) []byte {
+			to := holder(w)
+			return ethTx(w, 5, &to, 0, nil, 100000, 0)
+		},
+	}}
+	return []Template{fund, veto, sd}
 }
